@@ -499,7 +499,7 @@ FIXED_PROJECTS: T.List[T.Tuple[str, T.Dict[str, str], T.List[str]]] = [
         'main.c': 'int main(void) { return 0; }\n', 'a_b.c': 'int f(void){return 1;}\n', 'a/b.c': 'int g(void){return 1;}\n'}, []),
     ('fixed-pipe', PIPE_PROJECT, []),
     ('fixed-override-test-exe', {
-        # known finding: a test whose program is an executable found through meson.override_find_program
+        # a test whose program is an executable found through meson.override_find_program (build.LocalProgram)
         'meson.build': ("project('ov', 'c')\nexe = executable('tool', 'main.c', build_by_default: false)\n"
                         "meson.override_find_program('tool', exe)\nprog = find_program('tool')\ntest('t', prog)\n"),
         'main.c': 'int main(void) { return 0; }\n'}, []),
@@ -537,6 +537,10 @@ def run_job(job: dict) -> dict:
         rng = random.Random(job['seed'])
         spec = projgen.gen_project(rng, src, job['features'])
         rec['job']['files'] = spec['files']
+    if job.get('env'):
+        env = {k: v for k, v in (env or os.environ).items()
+               if k not in ('MESON_RSP_THRESHOLD', 'NINJA', 'CC', 'CFLAGS', 'LDFLAGS', 'DESTDIR')}
+        env.update(job['env'])
     rec['spec'] = None if spec is None else {k: spec[k] for k in ('targets', 'tests', 'collision') if k in spec}
     r = projgen.configure(src, bld, job['args'], env=env, timeout=job.get('timeout', 300))
     rec['ok'] = r['ok']
@@ -652,6 +656,28 @@ def safe_job(job: dict) -> dict:
                 'timeout': False, 'error': f'harness: {type(e).__name__}: {e}'[:200], 'harness_error': True}
 
 
+def gen_job(rng, label: str, args: T.List[str], feats: T.Optional[dict] = None, group: str = 'gen') -> dict:
+    """a generated project under one option combination; unity builds also vary unity_size (2..5) and tell the
+    generator, which then makes source counts hit its exact multiples; a few jobs force response files everywhere"""
+    feats = dict(feats or {})
+    args = list(args)
+    unity = 'off'
+    for a in args:
+        if a.startswith('-Dunity='):
+            unity = a.split('=', 1)[1]
+    feats['unity'] = unity
+    if unity != 'off':
+        us = rng.choice([2, 2, 3, 4, 5])
+        args.append(f'-Dunity_size={us}')
+        feats['unity_size'] = us
+    if rng.random() < 0.3:
+        feats['odd_names'] = 0.9
+    job = {'kind': 'gen', 'label': f'{group}:{label}', 'seed': rng.getrandbits(48), 'features': feats, 'args': args}
+    if rng.random() < 0.1:
+        job['env'] = {'MESON_RSP_THRESHOLD': '0'}
+    return job
+
+
 def make_jobs(ctx: Ctx, scratch: str) -> T.List[dict]:
     rng = ctx.rng
     jobs: T.List[dict] = []
@@ -661,15 +687,11 @@ def make_jobs(ctx: Ctx, scratch: str) -> T.List[dict]:
     per = ctx.scale(2, 40)
     for label, args in matrix:
         for _ in range(per):
-            feats = {}
-            if rng.random() < 0.3:
-                feats['odd_names'] = 0.9
-            jobs.append({'kind': 'gen', 'label': 'gen:' + label, 'seed': rng.getrandbits(48), 'features': feats, 'args': args})
-    # names with `|` (known finding): a couple per run so that it stays visible
+            jobs.append(gen_job(rng, label, args))
+    # names with `|`: must be rejected at configure time (ninja_quote), never written into a manifest
     for _ in range(ctx.scale(1, 12)):
         label, args = rng.choice(matrix)
-        jobs.append({'kind': 'gen', 'label': 'pipe:' + label, 'seed': rng.getrandbits(48),
-                     'features': {'pipe_names': True, 'subproject': 0.0}, 'args': args})
+        jobs.append(gen_job(rng, label, args, {'pipe_names': True, 'subproject': 0.0}, group='pipe'))
     ncoll = ctx.scale(10, 240)
     for i in range(ncoll):
         kind = projgen.COLLISION_KINDS[i % len(projgen.COLLISION_KINDS)]
@@ -691,7 +713,7 @@ def make_jobs(ctx: Ctx, scratch: str) -> T.List[dict]:
 def replay_case(rec: dict) -> dict:
     """what is needed to re-run the project"""
     job = rec['job']
-    case = {'label': job.get('label'), 'args': job.get('args'), 'kind': job['kind']}
+    case = {'label': job.get('label'), 'args': job.get('args'), 'kind': job['kind'], 'env': job.get('env')}
     if job['kind'] == 'corpus':
         case['name'] = job['name']
     else:
@@ -807,6 +829,14 @@ def run_projects(ctx: Ctx, oracle_only: bool = False, jobs_fn=make_jobs) -> T.Li
                 ctx.seen_nontrivial((label, job.get('seed')))
             elif group == 'corpus':
                 ctx.tag('corpus-not-configurable')
+            elif group in ('pipe', 'fixed-pipe') and 'Ninja cannot represent the path' in r['error']:
+                # a name with `|`: rejected at configure time by ninja_quote; the message must name the path
+                named = re.search(r"the path (['\"]).*\|.*\1", r['error']) is not None
+                ctx.tag('pipe-rejected-at-configure' + ('' if named else ':path-not-named'))
+                if not named:
+                    ctx.violation('pipe-rejection-without-path', 'the configure error for a path with | does not name the path',
+                                  replay_case(r))
+                ctx.seen_nontrivial((label, job.get('seed')))
             elif group in ('gen', 'pipe') and '--layout=flat' in job['args'] and 'Multiple producers' in r['error']:
                 # the same name in two directories / in a subproject: collides under layout=flat, rejected at configure time
                 ctx.tag('flat-collision-rejected')
@@ -973,7 +1003,7 @@ def run_mutated_manifests(ctx: Ctx, recs: T.List[dict]) -> None:
 # ---------------------------------------------------------------------------------------------------------------
 # emission discipline: model vs the real classes
 
-E_NAMES = ['a', 'b', 'c', 'a b', 'x:y', 'd$', 'sub/o', 'é', 'o.h', 'dir/../a', 'q\\r', '#h', 'a', 'b']
+E_NAMES = ['a', 'b', 'c', 'a b', 'x:y', 'd$', 'sub/o', 'é', 'o.h', 'dir/../a', 'q\\r', '#h', 'a', 'b', 'p|q']
 E_RULES = ['R1', 'R2', 'CC', 'phony', 'R1_RSP', 'R1']
 LONG_ARG = 'x' * 17000
 
@@ -1046,6 +1076,8 @@ def real_emit(ops) -> T.Tuple[str, str, T.Optional[str]]:
             return steps, 'ERR:MultipleProducers', None
         if 'does not support newlines' in msg:
             return steps, 'ERR:Newline', None
+        if 'Ninja cannot represent the path' in msg:
+            return steps, 'ERR:Pipe', None
         return steps, 'ERR:' + type(e).__name__, None
     return steps, 'OK', buf.getvalue()
 
@@ -1173,30 +1205,49 @@ def run_canon(ctx: Ctx) -> None:
 
 
 def run_quote(ctx: Ctx) -> None:
-    """ninja_quote(name, True) of the implementation vs the model; and the property on the implementation: what is
-    written for a name is read back as that name (the independent reader `_expand`), `|` being the known exception"""
+    """ninja_quote(name, True) of the implementation vs the model (accept/raise and the text); and the property on the
+    implementation: whatever is accepted is read back as that name by the independent reader `_expand`"""
     from mesonbuild.backend import ninjabackend as NB
+    from mesonbuild.utils.universal import MesonException
     rng = ctx.rng
-    alphabet = list('ab.-_/ $:|#\\\'"é中@~') + ['$$', ' :', '  ']
-    cases = ['', 'a', 'a b', 'a:b', 'a$b', 'a|b', '$', ':', ' ', 'é b', 'x$ y', 'a$:b']
+    alphabet = list('ab.-_/ $:|#\\\'"é中@~') + ['$$', ' :', '  ', '\n']
+    cases = ['', 'a', 'a b', 'a:b', 'a$b', 'a|b', '$', ':', ' ', 'é b', 'x$ y', 'a$:b', '|', 'a\nb', '|\n']
     for _ in range(ctx.scale(1500, 15000)):
         cases.append(''.join(rng.choice(alphabet) for _ in range(rng.randint(0, 8))))
-    quoted = [NB.ninja_quote(c, True) for c in cases]
-    ans = ctx.driver('ninja', ['quote ' + enc(c) for c in cases] + ['readpath ' + enc(q + ': phony') for q in quoted]) \
+
+    def impl(c):
+        try:
+            return NB.ninja_quote(c, True)
+        except MesonException as e:
+            return ('RAISES', str(e))
+    quoted = [impl(c) for c in cases]
+    acc = [k for k, q in enumerate(quoted) if isinstance(q, str)]
+    ans = ctx.driver('ninja', ['quote ' + enc(c) for c in cases] + ['readpath ' + enc(quoted[k] + ': phony') for k in acc]) \
         if ctx.model_available else None
+    pos = {k: j for j, k in enumerate(acc)}
     for k, (c, q) in enumerate(zip(cases, quoted)):
         ctx.count()
-        ctx.tag('quote:' + ('pipe' if '|' in c else 'plain'))
+        if not isinstance(q, str):
+            ctx.tag('quote:raises:' + ('newline' if '\n' in c else 'pipe'))
+            if '|' in c and '\n' not in c and repr(c) not in q[1]:
+                ctx.violation(f'quote-message:{c!r}', 'the rejection of a path with | does not name the path', {'name': c, 'message': q[1]})
+            if ans is not None:
+                ctx.extra['disagreements_checked'] = ctx.extra.get('disagreements_checked', 0) + 1
+                if ans[k] != 'RAISES':
+                    ctx.disagreement({'kind': 'quote', 'input': c, 'impl': 'RAISES', 'model': ans[k][:80]})
+            continue
+        ctx.tag('quote:accepted')
         toks = _expand(q + ': phony', {}, path_mode=True)
         first = toks[0] if toks and isinstance(toks[0], str) else ''
         if c and first != c:
             key = 'pipe-in-path' if '|' in c else f'quote-readback:{c!r}'
-            ctx.violation(key, 'ninja_quote(name, True) is not read back as the name', {'name': c, 'quoted': q, 'read': first})
+            ctx.violation(key, 'ninja_quote(name, True) accepts the name but the text is not read back as the name',
+                          {'name': c, 'quoted': q, 'read': first})
         if ans is not None:
             ctx.extra['disagreements_checked'] = ctx.extra.get('disagreements_checked', 0) + 2
-            if dec(ans[k]) != q:
-                ctx.disagreement({'kind': 'quote', 'input': c, 'impl': q, 'model': dec(ans[k])})
-            a = ans[len(cases) + k]
+            if ans[k] != 'OK|' + enc(q):
+                ctx.disagreement({'kind': 'quote', 'input': c, 'impl': q, 'model': ans[k][:80]})
+            a = ans[len(cases) + pos[k]]
             lean_first = dec(a.split('|')[1]) if a.startswith('OK|') else a
             if c and lean_first != first:
                 ctx.disagreement({'kind': 'readpath', 'input': q, 'lean': a[:120], 'oracle': first})
@@ -1247,7 +1298,7 @@ def search(ctx: Ctx, disagreements: T.List[dict]) -> None:
             case = d.get('case')
             if case and case.get('files'):
                 jobs.append({'kind': 'files', 'label': 'search:' + str(case.get('label')), 'files': case['files'],
-                             'args': case.get('args') or []})
+                             'args': case.get('args') or [], 'env': case.get('env')})
         rng = c.rng
         matrix = projgen.option_matrix()
         for i in range(160):
@@ -1259,9 +1310,9 @@ def search(ctx: Ctx, disagreements: T.List[dict]) -> None:
                 if kind.startswith('flat-'):
                     args = ['--layout=flat'] + [a for a in args if not a.startswith('--layout')]
                 label = 'collision:' + kind
+                jobs.append({'kind': 'gen', 'label': label, 'seed': rng.getrandbits(48), 'features': feats, 'args': args})
             else:
-                label = 'gen:' + label
-            jobs.append({'kind': 'gen', 'label': label, 'seed': rng.getrandbits(48), 'features': feats, 'args': args})
+                jobs.append(gen_job(rng, label, args))
         for k, j in enumerate(jobs):
             j['scratch'] = os.path.join(scratch, f's{k}')
         return jobs
@@ -1290,7 +1341,8 @@ def replay(ctx: Ctx, rep: dict) -> None:
         if case.get('kind') == 'corpus':
             job = {'kind': 'corpus', 'label': 'corpus', 'name': case['name'], 'args': case.get('args') or []}
         else:
-            job = {'kind': 'files', 'label': case.get('label') or 'replay', 'files': case['files'], 'args': case.get('args') or []}
+            job = {'kind': 'files', 'label': case.get('label') or 'replay', 'files': case['files'], 'args': case.get('args') or [],
+                   'env': case.get('env')}
         job['scratch'] = os.path.join(scratch, 'r')
         rec = run_job(job)
         print('configured:', rec['ok'], rec.get('error'))
